@@ -30,6 +30,14 @@ CHECKS.update({
  'C20': (E1, 'All size_in/size_out lists of 1..3 (4 thorough) modes with every singleton substitution, all rank profiles over {1,2,3}, batch ranks 0..3, float32/float64, He/Glo: forward value, parameter registration and all parameter gradients equal those of the dense affine map contracted from the layer\'s own cores.',
          'bias overwritten with a non-zero tensor; torch RNG seeded', '§5 C20'),
 })
+CHECKS.update({
+ 'C01': (E3, 'For every enumerated dense input (orders 1..4 quick / 1..6 thorough, all {1,2,3}^d shapes for d<=3, operator shapes, torch/numpy sources, shape-argument forms, f64/c128/f32, spectra: exact low rank, full, decaying, flat (ties), saturating, zero) the explorer visits EVERY rank-decision sequence that any eps in (0,1) can produce, and the +-2 ulp neighbourhood of every breakpoint, for rmax in {inf,1,2,per-bond list}; shape, error <= eps|A|, rank <= rmax, rank <= exact unfolding rank are checked on every run.',
+         'rank_chop observed through a wrapper installed from outside; breakpoints computed from all tail-energy levels of all logged calls; checker SVD for exact ranks', '§4.1, §5 C01'),
+ 'C02': (E3, 'Same decision walk (plus eps=0) on x.round(eps,rmax) for raw random / badly scaled / rank-deficient / over-parameterised / zero / inflated (x+x-x) / TT-SVD-provenance inputs, tensors and operators, orders 1..4 (7 thorough): shape, error bound, R_out<=R_in, <=rmax, <=exact unfolding rank, operand snapshot (values, ranks, version counters) unchanged after every run.',
+         'as C01', '§4.1, §5 C02'),
+ 'C10': (E3, 'reshape: ALL ordered pairs of ordered factorisations (with inserted singleton modes) of the element counts {4,6,8,12} (to 36 thorough), tensors and operators; permute: ALL permutations up to order 4 (6 thorough), tensors and operators; to_qtt/qtt_to_tens: all shapes over {1,2,4,8}(16) and mode_size 3 powers; exact mode sizes and value within C*eps incl. complex phase; loose eps by the complete decision walk on [1e-8,0.3).',
+         'error budget constants C from DESIGN §5 C10', '§5 C10'),
+})
 PENDING = {}
 ALL = ['C%02d' % i for i in range(1, 21)]
 
